@@ -55,7 +55,29 @@ func (e *enc) bytes(num protowire.Number, v []byte) {
 	e.b = protowire.AppendBytes(e.b, v)
 }
 func (e *enc) str(num protowire.Number, s string) { e.bytes(num, []byte(s)) }
+// PackMode selects how repeated scalar fields are written: 0 packed in one chunk (what every
+// real writer does), 1 unpacked (one tag per value), 2 packed but split into two chunks. All
+// three are the same message to a conforming protobuf parser. Experimental, see DESIGN §12.
+var PackMode int
+
 func (e *enc) packedVar(num protowire.Number, vs []uint64) {
+	switch {
+	case PackMode == 1:
+		for _, v := range vs {
+			e.varint(num, v)
+		}
+		return
+	case PackMode == 2 && len(vs) > 1:
+		h := len(vs) / 2
+		for _, part := range [][]uint64{vs[:h], vs[h:]} {
+			var p []byte
+			for _, v := range part {
+				p = protowire.AppendVarint(p, v)
+			}
+			e.bytes(num, p)
+		}
+		return
+	}
 	var p []byte
 	for _, v := range vs {
 		p = protowire.AppendVarint(p, v)
@@ -63,11 +85,11 @@ func (e *enc) packedVar(num protowire.Number, vs []uint64) {
 	e.bytes(num, p)
 }
 func (e *enc) packedSint(num protowire.Number, vs []int64) {
-	var p []byte
-	for _, v := range vs {
-		p = protowire.AppendVarint(p, protowire.EncodeZigZag(v))
+	us := make([]uint64, len(vs))
+	for i, v := range vs {
+		us[i] = protowire.EncodeZigZag(v)
 	}
-	e.bytes(num, p)
+	e.packedVar(num, us)
 }
 
 func delta(vs []int64) []int64 {
